@@ -45,7 +45,9 @@ LEVEL_TEXT = (
     "builder vs `emit` (every proto-subroutine of every flush, MemoryManager snapshot after every operation); (2) "
     "HostSem vs the harness' direct interpreter written from the statement; (3) ProtoExec vs real assembler + real "
     "Executor on the emitted programs. Oracle: real SDK -> bytes -> real Executor vs the direct interpreter: trace, "
-    "controller arrays/registers and every Array/Future/RegFuture handle read on the host after EVERY flush.")
+    "controller arrays/registers and every Array/Future/RegFuture handle read on the host after EVERY flush, every "
+    "array entry also through handles asked from the Array AGAIN after every flush (get_future_index / "
+    "get_future_slice), and the registers the real assembler introduces against the registers live at that flush.")
 LEVEL_NOTE = (
     "`emit_correct` is about the model `emit` and about ProtoExec. The step down to the executor model is the chain "
     "Props/C05Chain.lean (ProtoExec -> C03 source semantics -> assembled subroutine -> `Exec.run`, one flush) and "
